@@ -152,11 +152,11 @@ func (w *WorkerGrp) signalExit() {
 
 // localize hash to worker
 func (w *WorkerGrp) locHash(k Hashed2Int) int {
-	var hashNum = k.HashedInt()
+	// reduce first: the smallest int has no positive counterpart, its remainder has
+	var hashNum = k.HashedInt() % w.muxSize
 	if hashNum < 0 {
 		hashNum = -hashNum
 	}
-	hashNum %= w.muxSize
 	return hashNum
 }
 
